@@ -159,6 +159,46 @@ pub fn pop_table(prop: &str, kinds: &[Kind], cover_methods: &[Method], tier: &st
     ));
 }
 
+/// E1 (and E7 for the leftmost properties) on the dead-hop grid, both variants, every kind of
+/// `kinds`, every registration order of sets of up to four patterns (reverse order beyond that).
+pub fn dead_hop_tables(prop: &str, kinds: &[Kind], acc: &mut Acc, bounds: &mut Vec<String>) {
+    let mut fams: Vec<(Variant, families::Family)> = Vec::new();
+    for f in families::dead_hop_grid(false) {
+        fams.push((Variant::Byte, f.clone()));
+        fams.push((Variant::Char, f));
+    }
+    for f in families::dead_hop_grid(true) {
+        fams.push((Variant::Char, f));
+    }
+    let lm_prop = prop == "C03" || prop == "C04";
+    let a = util::par_for(fams.len(), |fi, acc| {
+        let (variant, fam) = &fams[fi];
+        for &kind in kinds {
+            let n = fam.pats.len();
+            let orders: Vec<Vec<usize>> = if kind == Kind::LF && n <= 4 {
+                crate::props3::permutations_pub(n)
+            } else if kind == Kind::LF {
+                vec![(0..n).collect(), (0..n).rev().collect()]
+            } else {
+                vec![(0..n).collect()]
+            };
+            for o in &orders {
+                let pats: Vec<Vec<u8>> = o.iter().map(|&i| fam.pats[i].clone()).collect();
+                let cfg = Cfg::new(*variant, kind, None, Entry::Builder);
+                let origin = e2::case_json(&cfg, &pats, None);
+                util::set_case(prop, "table", origin.clone());
+                if let Some(b) = e2::build_or_violate(prop, "table", cfg, &pats, None, acc) {
+                    if e1::check_table(prop, &b, &pats, &origin, acc).is_some() && kind != Kind::Std && lm_prop {
+                        crate::lm::check_leftmost(prop, &b, &pats, &origin, acc);
+                    }
+                }
+            }
+        }
+    });
+    acc.merge(a);
+    bounds.push(format!("E1{} on the dead-hop grid ({} families: suffix chains of length 3-5 whose j-th hop is the first state with the dead fail link, ASCII and three-byte letters) x both variants x kinds {:?}", if lm_prop { "+E7" } else { "" }, fams.len(), kinds.iter().map(|k| k.name()).collect::<Vec<_>>()));
+}
+
 /// E1 (+E3) on every automaton of a small scope (ties the small scope to the table level too).
 pub fn small_table(prop: &str, kinds: &[Kind], cover_methods: &[Method], tier: &str, acc: &mut Acc, bounds: &mut Vec<String>) {
     let thorough = tier_is_thorough(tier);
@@ -279,6 +319,7 @@ pub fn run_property(prop: &str, tier: &str) -> Option<Outcome> {
             pop_table(prop, &[Kind::LL], &[Method::Lm], tier, &mut acc, &mut bounds);
             small_table(prop, &[Kind::LL], &[Method::Lm], tier, &mut acc, &mut bounds);
             deep_small_scope(prop, &[Kind::LL], tier, &mut acc, &mut bounds);
+            dead_hop_tables(prop, &[Kind::LL], &mut acc, &mut bounds);
             crate::scale::scale_cases(prop, &[Kind::LL], &[Method::Lm], tier, &mut acc, &mut bounds);
             ("model_checking", "states = pairs (iterator configuration, reference-machine state) of the leftmost product exploration + table states, transitions = pairs x labels; E2 cases: non-trivial = some occurrence is suppressed and leftmost-longest differs from leftmost-first".into(), vec!["the iterator model of E7 mirrors LestmostFindIterator::next; it is replayed on the public iterator for every explored pair".into()])
         }
@@ -287,6 +328,7 @@ pub fn run_property(prop: &str, tier: &str) -> Option<Outcome> {
             pop_table(prop, &[Kind::LF], &[Method::Lm], tier, &mut acc, &mut bounds);
             small_table(prop, &[Kind::LF], &[Method::Lm], tier, &mut acc, &mut bounds);
             deep_small_scope(prop, &[Kind::LF], tier, &mut acc, &mut bounds);
+            dead_hop_tables(prop, &[Kind::LF], &mut acc, &mut bounds);
             crate::scale::scale_cases(prop, &[Kind::LF], &[Method::Lm], tier, &mut acc, &mut bounds);
             ("model_checking", "states = pairs (iterator configuration, reference-machine state) of the leftmost product exploration + table states, transitions = pairs x labels; E2 cases: non-trivial = some occurrence is suppressed and leftmost-first differs from leftmost-longest".into(), vec!["the iterator model of E7 mirrors LestmostFindIterator::next; it is replayed on the public iterator for every explored pair".into()])
         }
@@ -342,6 +384,7 @@ pub fn run_property(prop: &str, tier: &str) -> Option<Outcome> {
         "C09" => {
             crate::props2::c09(tier, &mut acc, &mut bounds);
             run_types("C09", tier, &mut acc, &mut bounds);
+            crate::scale::roundtrip(prop, tier, &mut acc, &mut bounds);
             ("model_checking", "every automaton of the population: round trip with 4 tails, image parsed independently, product exploration original vs restored; non-trivial = leftmost kind or char-wise variant".into(), vec![])
         }
         "C10" => {
@@ -366,6 +409,7 @@ pub fn run_property(prop: &str, tier: &str) -> Option<Outcome> {
         "C13" => {
             pop_table(prop, &Kind::ALL, &[], tier, &mut acc, &mut bounds);
             small_table(prop, &Kind::ALL, &[], tier, &mut acc, &mut bounds);
+            dead_hop_tables(prop, &Kind::ALL, &mut acc, &mut bounds);
             ("model_checking", "E1 ranking: every reachable state x every label of every automaton; non-trivial E2 cases = haystacks with overlapping matches".into(), vec![])
         }
         "C15" => {
